@@ -1073,10 +1073,10 @@ Proof.
   { unfold lens_of, map_shape_to_requested. rewrite !map_length.
     symmetry. apply (r2s_length _ _ _ Hnew). }
   split; [|split; [exact E2|split; [rewrite E1, Es; reflexivity|]]].
-  - unfold view_wf. cbn [v_shape v_get]. rewrite E1, E2. split; [split|split].
+  - unfold view_wf, valid_shape, elements. cbn [v_shape v_get]. rewrite E1, E2. split; [split|split].
     + exact Hnd.
     + eapply Permutation_Forall; [|exact Hpos]. unfold lens_of. apply Permutation_map, Hp.
-    + unfold elements in *. rewrite E1. unfold lens_of in *. rewrite <- (prod_perm _ _ (Permutation_map snd Hp)). exact Hb.
+    + unfold elements, lens_of in *. rewrite <- (prod_perm _ _ (Permutation_map snd Hp)). exact Hb.
     + exact Hget.
   - intros idx. rewrite (map_to_source_by_name _ req tbl idx Hnd Hlen Hnew). reflexivity.
 Qed.
